@@ -150,6 +150,8 @@ def run(ctx: Ctx) -> None:
     N = ctx.n(220, 5000)
     rng = ctx.rng
     for i in range(N):
+        if ctx.out_of_time():
+            break
         case = gen_case(ctx, rng)
         if case is None:
             ctx.count("skipped:too_many_herald_photons")
